@@ -57,7 +57,11 @@ func c13Prop(c *sim.Case) {
 		Logout:       sim.Bool(c, "logout"),
 		AccessToken:  sim.Bool(c, "at"),
 		CookiePrefix: pfx(c, "prefix"),
+		// half of the flows go through the assembled server filter (what it does to a request before the OIDC filter
+		// sees it is part of what is answered)
+		ViaServer: sim.Bool(c, "via-server"),
 	}
+	o.ViaGRPC = o.ViaServer && sim.Bool(c, "via-grpc-server") // through the service's own gRPC server and interceptors
 	switch sim.Weighted(c, "clientid", 2, 3, 2) {
 	case 0:
 		o.ClientID = "client-1"
